@@ -296,7 +296,35 @@ def predict_tree(text, cname, without, name):
     return (vc, vprops, ((ec, eprops, ech),))
 
 
-replay = run_case
+def run_twice(case):
+    """('tw', container, name, first value, second value, how): one property name on two lines, each with its own parameter;
+    an empty (or zero) value is a value: two properties come back, each with its parameter and value."""
+    _, cname, name, v1, v2, how = case
+    fails = []
+    if how == "text":
+        text = "\r\n".join([f"BEGIN:{cname}", "UID:sentinel", f"{name};X-FIRST=1:{v1}", "X-BETWEEN:b", f"{name};X-SECOND=2:{v2}", f"END:{cname}", ""])
+        back = Calendar.from_ical("BEGIN:VCALENDAR\r\n" + text + "END:VCALENDAR\r\n")
+    else:
+        comp = {"VEVENT": Event, "VTODO": Todo}[cname]()
+        comp.add("uid", "sentinel")
+        comp.add(name, v1, parameters={"X-FIRST": "1"})
+        comp.add("x-between", "b")
+        comp.add(name, v2, parameters={"X-SECOND": "2"})
+        cal = Calendar()
+        cal.add_component(comp)
+        back = Calendar.from_ical(cal.to_ical())
+    c2 = back.subcomponents[0]
+    got = c2.get(name)
+    got = got if isinstance(got, list) else ([] if got is None else [got])
+    obs = [(sorted(g.params.keys()), str(g)) for g in got]
+    want = [(["X-FIRST"], v1), (["X-SECOND"], v2)]
+    if obs != want or sorted(c2.keys()) != sorted({"UID", name.upper(), "X-BETWEEN"}) or c2.errors:
+        fails.append(fail("twice:occurrences-differ", case, want, (obs, sorted(c2.keys()), c2.errors)))
+    return {"state": ("tw",) + tuple(case[1:]) + (repr(obs),), "trans": 3, "nontrivial": True, "outcome": "twice-ok" if not fails else "FAIL", "fails": fails}
+
+
+def replay(case):
+    return run_twice(case) if case[0] == "tw" else run_case(case)
 
 
 def run(ctx):
@@ -361,7 +389,16 @@ def run(ctx):
                 for pshape, ps in ((0, ""), (1, "p"), (1, "a,b;c"), (2, "a:b")):
                     yield ("c", name, pshape, ps, "vText", v)
 
+    def gen_twice():
+        for cname in ("VEVENT", "VTODO"):
+            for name in ("COMMENT", "X-A", "ATTENDEE", "RESOURCES", "CONTACT", "URL"):
+                for v1 in ("", "0", "first", "mailto:a@x"):
+                    for v2 in ("", "second", "0"):
+                        for how in ("text", "api"):
+                            yield ("tw", cname, name, v1, v2, how)
+
     ctx.explore("join/split + tree", gen, run_case)
+    ctx.explore("one name on two lines, falsy values", gen_twice, run_twice)
     ctx.explore("every string-valued property name", gen_names, run_case)
     ctx.explore("list-valued parameters", gen_lists, run_case)
     ctx.explore("long runs of blanks", gen_blank, run_case)
